@@ -3052,29 +3052,56 @@ PPL::Grid::wrap_assign(const Variables_Set& vars,
         // `x' has non-integral values, so add the integrality
         // congruence for `x'.
         add_congruence((x %= 0) / 1);
+        // The values of `x' are v_n/v_d + k*f_n/f_d, for `k' integer,
+        // where `v_d' divides `f_d' and `f_n', `f_d' are coprime: hence
+        // the integral ones are v + k*f_n, where `v' is any of them.
+        // If s*f_n + t*f_d == 1, then v_n*(f_d/v_d)*t is integral and
+        // is one of the values of `x': let it be the new `v_n'.
+        PPL_DIRTY_TEMP_COEFFICIENT(gcd);
+        PPL_DIRTY_TEMP_COEFFICIENT(s);
+        PPL_DIRTY_TEMP_COEFFICIENT(t);
+        gcdext_assign(gcd, s, t, f_n, f_d);
+        PPL_ASSERT(gcd == 1);
+        exact_div_assign(f_d, f_d, v_d);
+        v_n *= f_d;
+        v_n *= t;
+        v_d = 1;
+        f_d = 1;
       }
+      // From now on, the values of `x' are the integers v_n + k*f_n.
       if (o == OVERFLOW_WRAPS && f_n != wrap_frequency) {
         // We know that `x' is not a constant, so, if overflow wraps,
         // `x' may wrap to a value modulo the `wrap_frequency'.
         add_grid_generator(parameter(wrap_frequency * x));
       }
-      else if ((o == OVERFLOW_IMPOSSIBLE && 2*f_n >= wrap_frequency)
-               || (f_n == wrap_frequency)) {
-        // In these cases, `x' can only take a unique (ie constant)
-        // value.
-        if (r == UNSIGNED && v_n < 0) {
-          // `v_n' is the value closest to 0 and may be negative.
+      else {
+        // Either overflow is impossible, or all the values of `x'
+        // wrap to the same value.
+        // Let `v_n' be the least value of `x' that is not less than
+        // `min_value' (the remainder has the sign of the dividend).
+        v_n -= min_value;
+        v_n %= f_n;
+        if (v_n < 0) {
           v_n += f_n;
         }
-        unconstrain(x);
-        add_constraint(x == v_n);
-      }
-      else {
-        // If overflow is impossible but the grid frequency is less than
-        // half the wrap frequency, then there is more than one possible
-        // value for `x' in the range of the bounded integer type,
-        // so the grid is unchanged.
-        PPL_ASSERT(o == OVERFLOW_IMPOSSIBLE && 2*f_n < wrap_frequency);
+        v_n += min_value;
+        if (v_n > max_value) {
+          // No value of `x' is in the range of the bounded integer type.
+          PPL_ASSERT(o == OVERFLOW_IMPOSSIBLE);
+          set_empty();
+          return;
+        }
+        if (max_value - v_n < f_n) {
+          // `v_n' is the only value of `x' in the range of the bounded
+          // integer type: `x' can only take this (constant) value.
+          unconstrain(x);
+          add_constraint(x == v_n);
+        }
+        else {
+          // There is more than one possible value for `x' in the range
+          // of the bounded integer type, so the grid is unchanged.
+          PPL_ASSERT(o == OVERFLOW_IMPOSSIBLE);
+        }
       }
     }
     return;
